@@ -52,7 +52,7 @@ _cand_cache = {}
 def candidates(universe, labels_name, lab):
     """(complete candidates, incomplete candidates) as lists of (abstract, Ranking)."""
     from ..lib import mk_ranking
-    key = (universe, labels_name)
+    key = (universe, labels_name, tuple(sorted(lab.items())))
     if key in _cand_cache:
         return _cand_cache[key]
     comp = [c for c in spaces.weak_orders(universe)] + [c for c in spaces.weak_orders(universe + (FOREIGN,))]
